@@ -182,3 +182,35 @@ func VH_C14_unjail(h *vrt.H) {
 	}
 	vhCheckInvL(h, k, ctx, st)
 }
+
+// VH_C14_promotion: a validator the EndBlocker promotes into the set starts a fresh signing
+// window - the offence it was jailed for before is not punished a second time: a PRESENT vote
+// in its first block as a member leaves it active, with its power and holdings, and nothing
+// is slashed. Also Inv_L (members' windows in range) holds after any EndBlocker.
+func VH_C14_promotion(h *vrt.H) {
+	n := 2
+	k, ctx := vhKeeper(h)
+	st := vhBuild(h, k, ctx, n, 1, []uint64{1})
+	pre := vhSnapshot(h, k, ctx, st)
+	_, err := k.EndBlocker(ctx)
+	h.Assert(err == nil, "endblocker-never-fails")
+	if err != nil {
+		return
+	}
+	vhCheckInvL(h, k, ctx, st)
+	target := h.Choose("target", 0, n-1)
+	mid := vhSnapshot(h, k, ctx, st)
+	if !(pre.Val[target].Status == types.Pending && mid.Val[target].Status == types.Active) {
+		h.Reach("not-promoted")
+		return
+	}
+	ctx = ctx.WithBlockTime(time.Unix(int64(h.U32("now")), 0).UTC()).
+		WithVoteInfos([]abci.VoteInfo{{Validator: abci.Validator{Address: vhAddr(target), Power: 1}, BlockIdFlag: cmtproto.BlockIDFlagCommit}})
+	err = k.HandleVoteInfos(ctx)
+	h.Assert(err == nil, "vote-handling-never-fails")
+	post := vhSnapshot(h, k, ctx, st)
+	a, b := mid.Val[target], post.Val[target]
+	h.Assert(b.Status == types.Active && b.Power == a.Power && b.Locking.AmountOf(st.Tokens[0].Denom).Equal(a.Locking.AmountOf(st.Tokens[0].Denom)) && post.Slashed[0].Equal(mid.Slashed[0]),
+		"a-promoted-validator-is-not-punished-again-for-an-old-offence")
+	h.Reach("promoted-then-voted")
+}
